@@ -99,9 +99,15 @@ def check(case):
         keep = A.copy()
         Iset = set(I)
         kw = {"check_chain": False} if var == "nochain" else {}
-        res = must(lib(utils.imec, A, set(Iset), **kw), "imec[%s]" % var)
-        got, n = result_set(res, p, "imec")
-        compare_sets(got, n, want, "imec[%s]" % var, "A=%s I=%s" % (case["A"], I))
+        if case.get("after_failed_call"):
+            # an earlier, unrelated call that the library rejects (a 3-cycle is not a DAG) must leave nothing behind
+            bad = np.array([[0, 1, 0], [0, 0, 1], [1, 0, 0]])
+            lib(utils.dag_to_icpdag, bad, {0})
+            lib(utils.imec, bad, {1})
+        if not case.get("icpdag_only"):
+            res = must(lib(utils.imec, A, set(Iset), **kw), "imec[%s]" % var)
+            got, n = result_set(res, p, "imec")
+            compare_sets(got, n, want, "imec[%s]" % var, "A=%s I=%s" % (case["A"], I))
         ic = np.asarray(must(lib(utils.dag_to_icpdag, A, set(Iset)), "dag_to_icpdag[%s]" % var))
         if ic.shape != (p, p) or G.rows_from_matrix(ic) != ug:
             raise Violation("icpdag_wrong", "dag_to_icpdag[%s](A=%s, I=%s) = %s, I-essential graph is %s"
@@ -172,15 +178,18 @@ def _run_pairs(acc, job):
             continue
         for m, I in enumerate(subs):
             variants = [["int"], ["float"], ["weighted"], ["nochain"], ["uint8"], ["bool"], ["weighted"], ["int32"]][(k + m) % 8]
-            case = {"sub": "pairs_exh", "A": G.lists_from_rows(D), "I": I, "variants": variants, "salt": k + m,
-                    "mono": (m == len(subs) - 1 and k % 5 == 0)}
+            if job.get("step") and (k * len(subs) + m) % job["step"] != job["offset"] % job["step"]:
+                continue
+            case = {"sub": job["sub"], "A": G.lists_from_rows(D), "I": I, "variants": variants, "salt": k + m,
+                    "mono": (m == len(subs) - 1 and k % 5 == 0) and not job.get("step"), "icpdag_only": bool(job.get("step")),
+                    "after_failed_call": (k + m) % 7 == 0}
             try:
                 lab = check(case)
                 acc.record(case, lab, _nontrivial(case, lab), by_construction=True, sample=((k * 37 + m) % 4999 == 1))
             except Violation as v:
                 acc.record(case, [], False)
                 acc.violation(case, v)
-    acc.exhaustive = True
+    acc.exhaustive = not job.get("step")
 
 
 def _run_p2i(acc, job):
@@ -252,6 +261,10 @@ def plan(tier, seed):
     if tier == "thorough":
         for k in range(192):
             jobs.append({"sub": "pairs_exh", "p": 5, "shard": k, "nshards": 192, "seed": seed, "cost": 80})
+    else:
+        # quick: a seed-dependent 1/16 slice of the 936,992 (DAG, I) pairs on 5 nodes, I-CPDAG only (no class enumeration)
+        for k in range(32):
+            jobs.append({"sub": "pairs_p5_slice", "p": 5, "shard": k, "nshards": 32, "step": 16, "offset": seed, "seed": seed, "cost": 25})
     n = scaled(2400 if tier == "quick" else 30000)
     shards = 16 if tier == "quick" else 32
     for k in range(shards):
@@ -261,7 +274,7 @@ def plan(tier, seed):
 
 def run(job):
     acc = Acc(job["sub"])
-    if job["sub"] == "pairs_exh":
+    if job["sub"] in ("pairs_exh", "pairs_p5_slice"):
         _run_pairs(acc, job)
     elif job["sub"] == "p2i_exh":
         _run_p2i(acc, job)
